@@ -71,6 +71,26 @@ def gen_idle_script(rng):
     return {'cfg': {'cpn': cpn, 'gpn': 0, 'lfs': 0, 'mem': 0, 'scattered': rng.random() < 0.7}, 'nodes': nodes, 'iters': iters}
 
 
+def gen_alone_script(rng):
+    """property-directed (C04): a pilot of 3-4 nodes in scattered mode is filled with single-core tasks; a task of several
+    ranks arrives and waits alone; then completions free its cores spread over several nodes (some in the middle of the
+    node list only in part): the task is started with the next pass"""
+    nn, cpn = rng.choice([3, 3, 4]), rng.choice([2, 4])
+    nodes = [{'index': i, 'cores': [0] * cpn, 'gpus': [], 'lfs': 0, 'mem': 0} for i in range(nn)]
+    E = lambda inc=None, un=None: {'incoming': inc or [], 'marks': [], 'envs': [], 'unsched': un or []}
+    fill = [_req(u, 1, 1) for u in range(nn * cpn)]          # task u lands on node u // cpn (first free core first)
+    # how many cores come free per node: every node some, none of them all
+    free = [rng.randint(1, cpn - 1) if cpn > 1 else 1 for _ in range(nn)]
+    if rng.random() < 0.3: free[rng.randrange(nn)] = 0
+    ranks = sum(free) - rng.choice([0, 0, 1]) if sum(free) > 2 else sum(free)
+    w = _req(100, max(2, ranks), 1)
+    rel = [n * cpn + j for n in range(nn) for j in rng.sample(range(cpn), free[n])]
+    rng.shuffle(rel)
+    k = rng.randint(1, len(rel))
+    iters = [E([{'sched': fill}]), E([{'sched': [w]}]), E(None, [rel[:k]] + ([rel[k:]] if rel[k:] else [])), E(), E(), E()]
+    return {'cfg': {'cpn': cpn, 'gpn': 0, 'lfs': 0, 'mem': 0, 'scattered': True}, 'nodes': nodes, 'iters': iters}
+
+
 def gen_colo_script(rng):
     """property-directed (C02, colocate): a continuous (non-scattered) pilot with some nodes full; a tagged task of several
     ranks is placed - possibly after its walk found ranks on a node, met a full node and started over - and then a second
@@ -111,6 +131,8 @@ def run(ctx, prop):
         scripts.append(gen_idle_script(rng))
     for i in range(ctx.n(40, 800)):
         scripts.append(schedlib.keep_valid_releases(rp, gen_colo_script(rng)))
+    for i in range(ctx.n(25, 500)):
+        scripts.append(schedlib.keep_valid_releases(rp, gen_alone_script(rng)))
     for i in range(ctx.n(2, 40)):
         # large pilots: more than 512 releases reach the scheduler within one drain of the unschedule queue
         scripts.append(schedlib.fill_releases(rp, schedlib.gen_big_script(rng)))
